@@ -203,7 +203,7 @@ theorem mergeEmbedded_get? (emb : Table) (h : NodupKeys emb) (n : String) :
       split <;> simp [get?_set, hk]
 
 /-- the entry for `name` after the loop over a struct's fields; `R` is the recursive call, pointwise -/
-def loopAt (d : Defects) (R : Ty → String → Option Tag) (name : String) :
+def loopAt (d : NDefects) (R : Ty → String → Option Tag) (name : String) :
     List Field → Option Tag → Option Tag
   | [], cur => cur
   | f :: fs, cur =>
@@ -213,7 +213,7 @@ def loopAt (d : Defects) (R : Ty → String → Option Tag) (name : String) :
     loopAt d R name fs cur
 
 /-- the entry of `conf.FieldsFromStruct(t)` (as written) for `name`; no iteration order involved -/
-def rawAt (d : Defects) : Nat → Ty → String → Option Tag
+def rawAt (d : NDefects) : Nat → Ty → String → Option Tag
   | 0, _, _ => none
   | n + 1, t, name =>
     match t.deref.core with
@@ -226,7 +226,7 @@ def IsOrder (σ : Table → Table) : Prop := ∀ t, (σ t).Perm t
 theorem isOrder_id : IsOrder id := fun _ => List.Perm.refl _
 theorem isOrder_reverse : IsOrder List.reverse := fun t => List.reverse_perm t
 
-theorem fieldsLoop_spec (d : Defects) (σ : Table → Table) (hσ : IsOrder σ) (rec : Ty → Table)
+theorem fieldsLoop_spec (d : NDefects) (σ : Table → Table) (hσ : IsOrder σ) (rec : Ty → Table)
     (hrec : ∀ t, NodupKeys (rec t)) (name : String) :
     ∀ (fs : List Field) (acc : Table), NodupKeys acc →
       NodupKeys (fieldsLoop d σ rec fs acc) ∧
@@ -263,19 +263,19 @@ theorem fieldsLoop_spec (d : Defects) (σ : Table → Table) (hσ : IsOrder σ) 
     refine ⟨this.1, ?_⟩
     rw [this.2, g2, g1]
 
-theorem fieldsRaw_succ (d : Defects) (σ : Table → Table) (n : Nat) (t : Ty) :
+theorem fieldsRaw_succ (d : NDefects) (σ : Table → Table) (n : Nat) (t : Ty) :
     fieldsRaw d σ (n + 1) t =
       match t.deref.core with
       | .struct fs => fieldsLoop d σ (fieldsRaw d σ n) fs []
       | _ => [] := rfl
 
-theorem rawAt_succ (d : Defects) (n : Nat) (t : Ty) (name : String) :
+theorem rawAt_succ (d : NDefects) (n : Nat) (t : Ty) (name : String) :
     rawAt d (n + 1) t name =
       match t.deref.core with
       | .struct fs => loopAt d (rawAt d n) name fs none
       | _ => none := rfl
 
-theorem fieldsRaw_spec (d : Defects) (σ : Table → Table) (hσ : IsOrder σ) :
+theorem fieldsRaw_spec (d : NDefects) (σ : Table → Table) (hσ : IsOrder σ) :
     ∀ (n : Nat) (t : Ty), NodupKeys (fieldsRaw d σ n t) ∧
       ∀ name, (fieldsRaw d σ n t).get? name = rawAt d n t name := by
   intro n
@@ -300,16 +300,16 @@ theorem fieldsRaw_spec (d : Defects) (σ : Table → Table) (hσ : IsOrder σ) :
       | _ => rfl
 
 /-- `FieldsFromStruct` (as written), pointwise -/
-theorem fieldsRaw_get? (d : Defects) (σ : Table → Table) (hσ : IsOrder σ) (n : Nat) (t : Ty)
+theorem fieldsRaw_get? (d : NDefects) (σ : Table → Table) (hσ : IsOrder σ) (n : Nat) (t : Ty)
     (name : String) : (fieldsRaw d σ n t).get? name = rawAt d n t name :=
   (fieldsRaw_spec d σ hσ n t).2 name
 
-theorem fieldsRaw_nodup (d : Defects) (σ : Table → Table) (hσ : IsOrder σ) (n : Nat) (t : Ty) :
+theorem fieldsRaw_nodup (d : NDefects) (σ : Table → Table) (hσ : IsOrder σ) (n : Nat) (t : Ty) :
     NodupKeys (fieldsRaw d σ n t) := (fieldsRaw_spec d σ hσ n t).1
 
 /-- The entry `FieldsFromStruct` computes for a name does not depend on the order in which Go
 happens to iterate over the intermediate maps. -/
-theorem fieldsRaw_perm_invariant (d : Defects) (σ σ' : Table → Table) (hσ : IsOrder σ)
+theorem fieldsRaw_perm_invariant (d : NDefects) (σ σ' : Table → Table) (hσ : IsOrder σ)
     (hσ' : IsOrder σ') (n : Nat) (t : Ty) (name : String) :
     (fieldsRaw d σ n t).get? name = (fieldsRaw d σ' n t).get? name := by
   rw [fieldsRaw_get? d σ hσ, fieldsRaw_get? d σ' hσ']
